@@ -4,11 +4,15 @@
 //
 // Files:
 //
-//	c09_test.go         node (one MetricMetaDatabase + 1..3 MetricIndexDatabases), rows, the
-//	                    reference model (plain maps name -> id) and the oracles
-//	concurrent_test.go  part (a): goroutines released by a barrier (schedule dependent)
-//	history_test.go     part (b): sequential rapid state machine with flush cycles, creators
-//	                    nested at the file-system seams inside flushes, reopen and crash images
+//	c09_test.go         node (one MetricMetaDatabase + 1..3 MetricIndexDatabases), rows, the wire
+//	                    (reused buffers every []byte argument lives in, overwritten after each
+//	                    call), the reference model (plain maps name -> id) and the oracles
+//	query_test.go       read-only metadata queries (Suggest*, schema, tag filters, series lookups)
+//	                    as operations: call sequences of the production plans + their judgement
+//	concurrent_test.go  part (a): goroutines released by a barrier (schedule dependent): creators
+//	                    and query goroutines
+//	history_test.go     part (b): sequential rapid state machine with flush cycles, creators and
+//	                    queries nested at the file-system seams inside flushes, reopen and crash images
 //	regression_test.go  plain reproductions of the defects found
 package c09
 
@@ -157,9 +161,10 @@ func normTags(tags []kvPair) []kvPair {
 	return out
 }
 
-// buildRow renders the row with the production converter (broker side) and decodes it as the
-// storage side does, so namespace / name / tags hash are exactly what the workers see.
-func buildRow(r rowSpec) (*metric.StorageRow, error) {
+// marshalRow renders the row with the production converter (broker side): the bytes as they arrive
+// at the storage node. They are decoded once on a private copy to make sure namespace / name are
+// not changed by sanitising, so the strings of the rowSpec are exactly what the workers see.
+func marshalRow(r rowSpec) ([]byte, error) {
 	conv := metric.NewProtoConverter(models.NewDefaultLimits())
 	pm := &protoMetricsV1.Metric{Namespace: r.NS, Name: r.Name, Timestamp: 1600000000000}
 	for _, t := range r.Tags {
@@ -179,7 +184,7 @@ func buildRow(r rowSpec) (*metric.StorageRow, error) {
 	}
 	cp := append([]byte(nil), block...)
 	batch := metric.NewStorageBatchRows()
-	batch.UnmarshalRows(cp)
+	batch.UnmarshalRows(append([]byte(nil), cp...))
 	if batch.Len() != 1 {
 		return nil, fmt.Errorf("harness: %d rows decoded", batch.Len())
 	}
@@ -187,12 +192,115 @@ func buildRow(r rowSpec) (*metric.StorageRow, error) {
 	if string(row.NameSpace()) != r.NS || string(row.Name()) != r.Name {
 		return nil, fmt.Errorf("harness: name changed by sanitising: %q/%q -> %q/%q", r.NS, r.Name, row.NameSpace(), row.Name())
 	}
-	return row, nil
+	return cp, nil
+}
+
+// ---- wire: the memory discipline of the storage write path ---------------------------------------
+//
+// In production every []byte a get-or-create API receives is a zero-copy sub-slice of a row block
+// (metric.StorageRow.NameSpace/Name, KeyValueIterator.NextKey/NextValue), the block is decoded into
+// a buffer that is used again for the next block, and the decoded StorageRow objects are reused
+// (StorageBatchRows). Nothing allows a callee to keep such a slice after it returned. The harness
+// therefore never passes a private []byte("literal"): each worker (goroutine) owns one wire;
+//
+//	arena  the []byte arguments of ONE call are laid out from offset 0 of the arena, so the
+//	       arguments of consecutive calls occupy the same memory;
+//	recv   each row block is copied into the one receive buffer and decoded there (GenSeriesID
+//	       reads namespace, name, tags hash and the tag pairs out of it).
+//
+// After every call returned the memory is overwritten according to the mode of the case:
+//
+//	invert  every byte ^0xFF immediately            fill  every byte '#' immediately
+//	next    only by the arguments / the block of the next call (same offsets: "host" -> "zone")
+const (
+	wireInvert = "invert"
+	wireFill   = "fill"
+	wireNext   = "next"
+	wireCap    = 4096
+)
+
+var wireModes = []string{wireInvert, wireFill, wireNext}
+
+type wire struct {
+	mode  string
+	arena []byte
+	used  int
+	recv  []byte
+	batch *metric.StorageBatchRows
+	// counters (evidence classes)
+	calls, rows, overwritten int
+}
+
+func newWire(mode string) *wire {
+	return &wire{mode: mode, arena: make([]byte, wireCap), recv: make([]byte, 0, wireCap), batch: metric.NewStorageBatchRows()}
+}
+
+// arg places one argument of the call being prepared behind the previous ones.
+func (w *wire) arg(s string) []byte {
+	if w.used+len(s) > len(w.arena) {
+		panic("harness: wire arena too small")
+	}
+	b := w.arena[w.used : w.used+len(s)]
+	copy(b, s)
+	w.used += len(s)
+	return b
+}
+
+func (w *wire) scribble(b []byte) {
+	switch w.mode {
+	case wireInvert:
+		for i := range b {
+			b[i] ^= 0xFF
+		}
+	case wireFill:
+		for i := range b {
+			b[i] = '#'
+		}
+	default:
+		return
+	}
+	w.overwritten += len(b)
+}
+
+// returned: the call that used the arena arguments has returned.
+func (w *wire) returned() {
+	w.calls++
+	w.scribble(w.arena[:w.used])
+	w.used = 0
+}
+
+// decode copies the block into the receive buffer and decodes it there, as the storage side does.
+func (w *wire) decode(block []byte) (*metric.StorageRow, error) {
+	if len(block) > cap(w.recv) {
+		w.recv = make([]byte, 0, 2*len(block))
+	}
+	w.recv = append(w.recv[:0], block...)
+	w.batch.UnmarshalRows(w.recv)
+	if w.batch.Len() != 1 {
+		return nil, fmt.Errorf("harness: %d rows decoded", w.batch.Len())
+	}
+	return w.batch.Rows()[0], nil
+}
+
+// rowReturned: the call that received the decoded row has returned.
+func (w *wire) rowReturned() {
+	w.rows++
+	w.scribble(w.recv)
+}
+
+func (w *wire) genMetricID(n *node, r rowSpec) (metric.ID, error) {
+	ns, name := w.arg(r.NS), w.arg(r.Name)
+	mid, err := n.meta.GenMetricID(ns, name)
+	w.returned()
+	if err != nil {
+		return 0, fmt.Errorf("GenMetricID(%s/%s): %w", r.NS, r.Name, err)
+	}
+	return mid, nil
 }
 
 // ---- worker call sequences (what production goroutines do) ---------------------------------------
 
-// obs is one answer a creator got.
+// obs is one answer a creator (or a lookup) got.
 type obs struct {
 	Kind  string `json:"kind"` // metric | field | tagkey | tagval | series
 	Idx   int    `json:"idx,omitempty"`
@@ -218,11 +326,12 @@ func (o obs) String() string {
 	}
 }
 
-// metaWorkerRow = memdb.metadataDatabase.handleRow: metric id, then the ids of the row's fields.
-func metaWorkerRow(n *node, r rowSpec, row *metric.StorageRow, out *[]obs) error {
-	mid, err := n.meta.GenMetricID(row.NameSpace(), row.Name())
+// metaWorkerRow = memdb.metadataDatabase.handleRow: metric id, then the ids of the row's fields
+// (field names reach GenFieldID as Go strings: field.Name(bytes) copies).
+func metaWorkerRow(n *node, w *wire, r rowSpec, out *[]obs) error {
+	mid, err := w.genMetricID(n, r)
 	if err != nil {
-		return fmt.Errorf("GenMetricID(%s/%s): %w", r.NS, r.Name, err)
+		return err
 	}
 	*out = append(*out, obs{Kind: "metric", NS: r.NS, Name: r.Name, ID: uint32(mid)})
 	for _, f := range r.Fields {
@@ -236,14 +345,19 @@ func metaWorkerRow(n *node, r rowSpec, row *metric.StorageRow, out *[]obs) error
 }
 
 // indexWorkerRow = memdb.indexDatabase.handleRow: metric id, then the series id (which creates
-// tag key / tag value ids and the postings when the series is new).
-func indexWorkerRow(n *node, i int, r rowSpec, row *metric.StorageRow, out *[]obs) error {
-	mid, err := n.meta.GenMetricID(row.NameSpace(), row.Name())
+// tag key / tag value ids and the postings when the series is new). block = marshalRow(r).
+func indexWorkerRow(n *node, w *wire, i int, r rowSpec, block []byte, out *[]obs) error {
+	mid, err := w.genMetricID(n, r)
 	if err != nil {
-		return fmt.Errorf("GenMetricID(%s/%s): %w", r.NS, r.Name, err)
+		return err
 	}
 	*out = append(*out, obs{Kind: "metric", NS: r.NS, Name: r.Name, ID: uint32(mid)})
+	row, err := w.decode(block)
+	if err != nil {
+		return err
+	}
 	sid, err := n.idx[i].GenSeriesID(mid, row)
+	w.rowReturned()
 	if err != nil {
 		return fmt.Errorf("GenSeriesID(idx%d %s): %w", i, r, err)
 	}
@@ -253,25 +367,25 @@ func indexWorkerRow(n *node, i int, r rowSpec, row *metric.StorageRow, out *[]ob
 
 // shardMetaCalls = the calls the index worker of one more shard issues against the shared
 // metadata database for a new series (handleRow + buildInvertIndex), without an index database.
-func shardMetaCalls(n *node, r rowSpec, row *metric.StorageRow, out *[]obs) error {
-	mid, err := n.meta.GenMetricID(row.NameSpace(), row.Name())
+func shardMetaCalls(n *node, w *wire, r rowSpec, out *[]obs) error {
+	mid, err := w.genMetricID(n, r)
 	if err != nil {
-		return fmt.Errorf("GenMetricID(%s/%s): %w", r.NS, r.Name, err)
+		return err
 	}
 	*out = append(*out, obs{Kind: "metric", NS: r.NS, Name: r.Name, ID: uint32(mid)})
-	it := row.NewKeyValueIterator()
-	for it.HasNext() {
-		k, v := string(it.NextKey()), string(it.NextValue())
-		kid, err := n.meta.GenTagKeyID(mid, []byte(k))
+	for _, t := range r.Tags { // sorted by key, as the converter writes them
+		kid, err := n.meta.GenTagKeyID(mid, w.arg(t.K))
+		w.returned()
 		if err != nil {
-			return fmt.Errorf("GenTagKeyID(%s/%s[%s]): %w", r.NS, r.Name, k, err)
+			return fmt.Errorf("GenTagKeyID(%s/%s[%s]): %w", r.NS, r.Name, t.K, err)
 		}
-		*out = append(*out, obs{Kind: "tagkey", NS: r.NS, Name: r.Name, Key: k, ID: uint32(kid)})
-		vid, err := n.meta.GenTagValueID(kid, []byte(v))
+		*out = append(*out, obs{Kind: "tagkey", NS: r.NS, Name: r.Name, Key: t.K, ID: uint32(kid)})
+		vid, err := n.meta.GenTagValueID(kid, w.arg(t.V))
+		w.returned()
 		if err != nil {
-			return fmt.Errorf("GenTagValueID(%s/%s[%s=%s]): %w", r.NS, r.Name, k, v, err)
+			return fmt.Errorf("GenTagValueID(%s/%s[%s=%s]): %w", r.NS, r.Name, t.K, t.V, err)
 		}
-		*out = append(*out, obs{Kind: "tagval", NS: r.NS, Name: r.Name, Key: k, Value: v, ID: vid})
+		*out = append(*out, obs{Kind: "tagval", NS: r.NS, Name: r.Name, Key: t.K, Value: t.V, ID: vid})
 	}
 	return nil
 }
@@ -603,8 +717,8 @@ func setOf(ids ...uint32) *roaring.Bitmap { return roaring.BitmapOf(ids...) }
 // must return exactly the model; exact=false (recovered node after new creations): every model
 // name must be present with its id, extra recovered entries are judged elsewhere.
 //
-// The Suggest* functions are not part of this oracle: they enumerate through the trie iterator,
-// which is C20's subject.
+// The Suggest* functions are not part of this oracle (they enumerate through the trie iterator,
+// which is C20's subject); they are operations of the histories, see query_test.go.
 func resolve(n *node, m *model, exact bool) error {
 	for _, k := range sortedMetricKeys(m.metrics) {
 		mm := m.metrics[k]
